@@ -76,7 +76,8 @@ structure Cell where
   ntr : Bool                 -- `_universe._not_truncated`
   lat : Option Nat           -- `_lattice._lattice.value`
   fill : Option Nat          -- `_fill._universe.number`
-  fillComplex : Bool         -- `_fill.transform or _fill.multiple_universes`
+  fillComplex : Bool         -- `_fill.transform` is set (a fill with a transform stays on the cell card)
+  fillMulti : Bool           -- `_fill.multiple_universes` with a matrix of universes
   setIn : Flags              -- `set_in_cell_block` of each cell-level instance (the datum was on the cell card read)
   deriving Repr, DecidableEq
 
@@ -141,7 +142,7 @@ def hasInformation (c : Cell) : K → Bool
   | .vol => c.vol.isSome
   | .u => match c.uni with | some n => n != 0 | none => false
   | .lat => c.lat.isSome
-  | .fill => c.fill.isSome || c.fillComplex
+  | .fill => c.fill.isSome || c.fillMulti
 
 /-- `cell_modifier.py: CellModifierInput._is_worth_printing` -/
 def isWorthPrinting (inCellBlock : Bool) (cells : List Cell) (c : Cell) (k : K) : Bool :=
@@ -202,7 +203,7 @@ def treeValue (c : Cell) : K → Except Err (Option Rat)
       | some n => if n == 0 then none else some (if c.ntr then -(n : Rat) else (n : Rat))
       | none => none)
   | .lat => .ok (c.lat.map (fun n => (n : Rat)))
-  | .fill => if c.fillComplex then .error .valueError else .ok (c.fill.map (fun n => (n : Rat)))
+  | .fill => if c.fillComplex || c.fillMulti then .error .valueError else .ok (c.fill.map (fun n => (n : Rat)))
 
 /-- `cell_modifier.py: CellModifierInput._collect_new_values`: in CELL ORDER -/
 def collectNewValues (k : K) : List Cell → Except Err (List (Option Rat))
